@@ -304,6 +304,13 @@ def run_c09(case):
 
 
 def run_c10(case):
+    # other devices discovered earlier in the same process (fresh stacks, fresh client model each)
+    for other in case.get("before", []):
+        l0 = Link(build_profile(other))
+        try:
+            l0.gc.discover()
+        except BaseException:  # noqa
+            pass
     prof = build_profile(case["profile"])
     link = Link(prof)
     gc = link.gc
